@@ -55,7 +55,9 @@ class InterestTreeNode:
 
     def nack_interest(self, nack_reason: int) -> bool:
         for entry in self.pending_list:
-            entry.future.set_exception(InterestNack(nack_reason))
+            # The timer may have fired (cancelling the future) in this very loop iteration
+            if not entry.future.done():
+                entry.future.set_exception(InterestNack(nack_reason))
         return True
 
     def satisfy(self, data: DataTuple, is_prefix: bool) -> bool:
@@ -71,7 +73,9 @@ class InterestTreeNode:
             else:
                 passed = False
             if passed:
-                entry.future.set_result(data)
+                # The timer may have fired (cancelling the future) in this very loop iteration
+                if not entry.future.done():
+                    entry.future.set_result(data)
             else:
                 unsatisfied_entries.append(entry)
         if unsatisfied_entries:
